@@ -129,7 +129,7 @@ def table(tmp):
     return T
 
 
-def _setup(tmp):
+def _setup(tmp, computed=False):
     import numpy as np
     import emg3d
     hx = np.ones(8)*100.
@@ -144,11 +144,13 @@ def _setup(tmp):
             [emg3d.TxElectricDipole((-50, 0, 0, 0, 0)),
              emg3d.TxElectricDipole((0, 50, 0, 90, 0))],
             [emg3d.RxElectricPoint((100, 50, 0, 0, 0)),
-             emg3d.RxMagneticPoint((-100, 50, 20, 45, 0))],
+             emg3d.RxMagneticPoint((-100, 50, 20, 45, 0)),
+             emg3d.RxElectricPoint((150, -50, 0, 30, 0))],
             [1.0, 2.0], noise_floor=1e-15, relative_error=0.05, name=name)
         rng = np.random.default_rng(7)
         d = (rng.standard_normal(s.shape) + 1j*rng.standard_normal(s.shape))
         d[1, 0, 1] = np.nan
+        d[:, 2, :] = np.nan           # a receiver without any datum
         s.data['observed'][...] = d*1e-12
         return s
     for d in ("", "dirA", "dirB"):
@@ -164,8 +166,13 @@ def _setup(tmp):
         s = emg3d.Simulation(survey(nm), model(1.0), gridding='same',
                              name=nm, max_workers=1,
                              receiver_interpolation='linear',
-                             solver_opts={'plain': True, 'maxit': 3})
-        s.to_file(os.path.join(tmp, nm + ".h5"), what='plain', verb=0)
+                             solver_opts={'plain': True, 'maxit': 3},
+                             tqdm_opts=False)
+        if computed:
+            _ = s.misfit          # fields, synthetic data, residual, misfit
+        s.to_file(os.path.join(tmp, nm + ".h5"), what='computed', verb=0)
+        shutil.copy(os.path.join(tmp, nm + ".h5"),
+                    os.path.join(tmp, "_pristine_" + nm + ".h5"))
     return grid
 
 
@@ -189,7 +196,7 @@ def _run(case):
            "eff": [], "apiEqual": True}
     notes = []
     try:
-        _setup(tmp)
+        _setup(tmp, computed=bool(case.get('loadcomputed')))
         T = table(tmp)
         file, term = [tuple(k) for k in case["file"]], \
             [tuple(k) for k in case["term"]]
@@ -200,6 +207,8 @@ def _run(case):
                 secs.setdefault(case["usec"], []).append("unknown_key = 1")
             elif s == "files":
                 secs.setdefault(s, []).append(f"{k} = {FILE_TXT[k]}")
+            elif (s, k) == ("simulation", "layered") and (s, k) in term:
+                secs.setdefault(s, []).append("layered = False")
             else:
                 secs.setdefault(s, []).append(f"{k} = {T[(s, k)][0]}")
         cfgfile = os.path.join(tmp, "emg3d.cfg")
@@ -349,22 +358,8 @@ def api_equal(case, tmp, T, file, term, src, pdir, fname, out, simf, obs):
         src(("files", "load")) != "default"
     fn = case["fn"]
     if load:
-        lk = "cache" if src(("files", "cache")) != "default" else "load"
-        lfile = fname(lk, None)
-        sim = emg3d.Simulation.from_file(lfile if not (lk == "cache" and simf)
-                                         else os.path.join(
-                                             tmp, "_orig_" + os.path.basename(lfile)),
-                                         verb=0) \
-            if False else None
-        # the cache file may have been overwritten by the run: rebuild the
-        # original from its known name
-        nm = os.path.basename(lfile)[:-3]
-        sim = emg3d.Simulation.from_file(os.path.join(tmp, "_pristine_" + nm + ".h5"),
-                                         verb=0) \
-            if os.path.exists(os.path.join(tmp, "_pristine_" + nm + ".h5")) \
-            else None
-        if sim is None:
-            return True, ""         # checked through names only (below)
+        return api_equal_load(case, tmp, file, term, src, pdir, fname, out,
+                              simf, obs, seteff)
     # ---- effective inputs
     sfile = fname("survey", "survey.h5")
     mfile = fname("model", "model.h5")
@@ -446,7 +441,12 @@ def api_equal(case, tmp, T, file, term, src, pdir, fname, out, simf, obs):
                ("file" if abs(pm - 0.55) < 1e-9 else None))
         seteff(("simulation", "max_workers"),
                {2: "term", 3: "file"}.get(got.max_workers))
-        if got.layered:
+        if ("simulation", "layered") in term and \
+                ("simulation", "layered") in file:
+            # the file says False, the terminal says True
+            seteff(("simulation", "layered"),
+                   "term" if got.layered else "file")
+        elif got.layered:
             seteff(("simulation", "layered"),
                    "term" if ("simulation", "layered") in term else "file")
         seteff(("files", "save"), "term" if simf.endswith("saveT.json")
@@ -490,6 +490,58 @@ def api_equal(case, tmp, T, file, term, src, pdir, fname, out, simf, obs):
         if fn == "gradient" and np.asarray(out["gradient"]).shape != \
                 ref.model.shape:
             return False, "dry-run gradient has the wrong shape"
+    return True, ""
+
+
+def api_equal_load(case, tmp, file, term, src, pdir, fname, out, simf, obs,
+                   seteff):
+    """--load / --cache: the API equivalent starts from the stored
+    simulation (sections [simulation], [solver_opts], [gridding_opts], [data]
+    are ignored, as documented)."""
+    import numpy as np
+    import emg3d
+    fn = case["fn"]
+    lk = "cache" if src(("files", "cache")) != "default" else "load"
+    nm = {"term": TERM_TXT[lk], "file": FILE_TXT[lk]}[src(("files", lk))][:-3]
+    ref = emg3d.Simulation.from_file(
+        os.path.join(tmp, "_pristine_" + nm + ".h5"), verb=0)
+    if case["clean"]:
+        ref.clean('computed')
+        ref.model = emg3d.load(fname("model", "model.h5"), verb=0)["model"]
+    want_lay = ("simulation", "layered") in term or \
+        ("simulation", "layered") in file
+    if ref.layered != want_lay:
+        ref.layered = want_lay
+    if simf:
+        got = emg3d.Simulation.from_file(simf, verb=0)
+        if got.name != nm:
+            return False, f"loaded simulation '{got.name}', expected {nm}"
+        seteff(("files", lk), src(("files", lk)))
+        from .c17 import deep_equal
+        if not deep_equal(got.model.to_dict(), ref.model.to_dict(), True):
+            return False, "model of the saved simulation differs from the API's"
+    if out is not None and not case["dry"]:
+        if fn == "forward":
+            orng = np.random.default_rng
+            np.random.default_rng = lambda *a: orng(1234)
+            try:
+                ref.compute(observed=True)
+            finally:
+                np.random.default_rng = orng
+            want = ref.data.observed.data
+        else:
+            ref.compute()
+            want = ref.data.synthetic.data
+        if not np.array_equal(np.asarray(out["data"]), want, equal_nan=True):
+            return False, "output data differ from the API's (load)"
+        if fn in ("misfit", "gradient"):
+            if float(out["misfit"]) != float(ref.misfit):
+                return False, (f"misfit {float(out['misfit'])} differs from "
+                               f"the API's {float(ref.misfit)} (load)")
+        if fn == "gradient":
+            if not np.array_equal(np.asarray(out["gradient"]),
+                                  np.asarray(ref.gradient)):
+                return False, "gradient differs from the API's (load)"
     return True, ""
 
 
@@ -540,6 +592,22 @@ def gen_cases(tier, rng, dkeys):
     add([("files", "load")], term=SAVE, clean=True)
     add([("files", "load"), ("gridding_opts", "center")], term=SAVE,
         clean=True)
+    # real runs starting from a stored, computed simulation
+    for fn in ("forward", "misfit", "gradient"):
+        for clean in (False, True):
+            cases.append({"file": [], "term": [["files", "save"],
+                                               ["files", "load"]] +
+                          ([["files", "model"]] if clean else []),
+                          "fn": fn, "dry": False, "clean": clean,
+                          "usec": "files", "loadcomputed": True})
+    cases.append({"file": [], "term": [["files", "cache"], ["files", "model"]],
+                  "fn": "misfit", "dry": False, "clean": True,
+                  "usec": "files", "loadcomputed": True})
+    # explicit remove_empty without any selection
+    add([("data", "remove_empty")], fn="misfit")
+    add([("data", "remove_empty"), ("simulation", "gridding"),
+         ("solver_opts", "plain"), ("solver_opts", "maxit")], fn="misfit",
+        dry=False)
     # real runs: functions x solver/noise/data options (gridding = same)
     base = [("simulation", "gridding"), ("solver_opts", "plain"),
             ("solver_opts", "maxit")]
@@ -597,6 +665,8 @@ def run(tier, replay=None):
         raise C.MachineryError(fatal[0]["fatal"])
     tl = [{k: r[k] for k in ("file", "usec", "term", "fn", "dry", "clean",
                              "obs")} for r in runs]
+    for r, c in zip(runs, cases):
+        r["loadcomputed"] = c.get("loadcomputed", False)
     bad = C.validate_batch(rep, "TraceCliConfig", "TraceCliConfig.cfg", tl,
                            "impl")
     badidx = dict(bad)
